@@ -822,6 +822,7 @@ pub fn map_scenario(out: &mut String, rng: &mut Rng, cases: usize) {
                 4 => {
                     writeln!(out, "S {} s{}", a, a).unwrap();
                     writeln!(out, "MS {} s{}", b, a).unwrap();
+                    writeln!(out, "ML {} {} {}", a, b, rng.below(3)).unwrap();
                 }
                 _ => {
                     writeln!(out, "G {} o{} {}", a, id, gen_one(rng, false)).unwrap();
